@@ -234,7 +234,7 @@ struct DOpt
 {
     int kind, group;
     std::string name, desc, metavar, env, def, letter;
-    bool reversible = false, has_default = false;
+    bool reversible = false, has_default = false, empty_list = false;
     int tdef = 0;
 };
 struct Decl
@@ -385,7 +385,13 @@ struct Exec
                     auto& x = g.multi_option(o.name, o.desc);
                     common(x);
                     if (o.has_default)
-                        x.default_value({ o.def, "second" });
+                    {
+                        if (flags & 8)
+                            x.default_value({}); // a default that is the empty list
+                        else
+                            x.default_value({ o.def, "second" });
+                        o.empty_list = (flags & 8) != 0;
+                    }
                 }
                 else
                 {
@@ -429,7 +435,7 @@ struct Exec
         if (o.kind == 0 && o.has_default)
             t += " (default: " + o.def + ")";
         if (o.kind == 1 && o.has_default)
-            t += " (default: " + (o.def.empty() ? std::string("second") : o.def + ", second") + ")";
+            t += o.empty_list ? std::string(" (default: )") : " (default: " + (o.def.empty() ? std::string("second") : o.def + ", second") + ")";
         if (o.kind == 2 && o.reversible)
             t += std::string(" (default: ") + (o.has_default && o.tdef ? "enabled" : "disabled") + ")";
         return t;
@@ -665,10 +671,18 @@ struct Exec
             p_groups++;
         // reference: a fresh string stream
         std::string ref;
+        try
         {
             std::ostringstream os;
             p->usage(os);
             ref = os.str();
+        }
+        catch (std::exception& e)
+        {
+            fail("C15/missing-option", "usage-throws", -1, std::string("usage() raised instead of writing the text: ") + e.what());
+            delete p;
+            out.hash = 2;
+            return out;
         }
         {
             // a second call on the same parser (nothing may be left over from the first)
